@@ -20,7 +20,10 @@ class Case:
 
 def ref_run(text, commands=None):
     toks, lerr, _c = rlexer.tokens(text)
-    p = Pda(commands)
+    if isinstance(commands, tuple):
+        p = Pda(commands[0], commands[1])
+    else:
+        p = Pda(commands)
     for t in toks:
         p.feed(t)
     return p, toks, lerr
